@@ -498,6 +498,9 @@ func allocFree(x *Exec, fn *ssa.Function, seen map[*ssa.Function]bool) bool {
 					continue
 				}
 				if cc.IsInvoke() {
+					if x.ifaceOfPurePkg(cc) {
+						continue
+					}
 					return false
 				}
 				callee := resolveCallee(cc)
@@ -572,6 +575,9 @@ func computeReadOnly(x *Exec, fn *ssa.Function) bool {
 				}
 				if cc.IsInvoke() {
 					if ms := x.methodSpec(cc); ms != nil && ms.Mode == "fn" {
+						continue
+					}
+					if x.ifaceOfPurePkg(cc) {
 						continue
 					}
 					// interface method: read-only if every implementation in the module is
